@@ -195,22 +195,22 @@ func NewPolynomialVector(polys []bignum.Polynomial, mapping map[int][]int) (Poly
 	}, nil
 }
 
-// IsEven returns true if all underlying polynomials are even,
-// i.e. all odd powers are zero.
+// IsEven returns the IsEven flag of the vector: true if at least one of the
+// underlying polynomials has its IsEven flag set, i.e. may have non-zero even powers
+// (a polynomial without parity has both its IsEven and IsOdd flags set).
 func (p PolynomialVector) IsEven() (even bool) {
-	even = true
 	for _, poly := range p.Value {
-		even = even && poly.IsEven
+		even = even || poly.IsEven
 	}
 	return
 }
 
-// IsOdd returns true if all underlying polynomials are odd,
-// i.e. all even powers are zero.
+// IsOdd returns the IsOdd flag of the vector: true if at least one of the
+// underlying polynomials has its IsOdd flag set, i.e. may have non-zero odd powers
+// (a polynomial without parity has both its IsEven and IsOdd flags set).
 func (p PolynomialVector) IsOdd() (odd bool) {
-	odd = true
 	for _, poly := range p.Value {
-		odd = odd && poly.IsOdd
+		odd = odd || poly.IsOdd
 	}
 	return
 }
